@@ -268,7 +268,9 @@ http_res_parse_line(nng_http *conn, uint8_t *line)
 	reason++;
 
 	status = atoi(codestr);
-	if ((status < 100) || (status > 999)) {
+	if ((strlen(codestr) != 3) || (codestr[0] < '0') || (codestr[0] > '9') ||
+	    (codestr[1] < '0') || (codestr[1] > '9') || (codestr[2] < '0') ||
+	    (codestr[2] > '9') || (status < 100) || (status > 999)) {
 		return (NNG_EPROTO);
 	}
 
